@@ -41,15 +41,22 @@ def mark_src(mark):
 
 
 def node_src(n):
+    """Source of one node class.  Naming: n['nm'] = 'id' (name = IR id, default) | 'none' (no name
+    attribute: engine id derives from module + class) | ['custom', value]."""
     nid = n['id']
+    if n.get('generic_of'):
+        return generic_src(n)
     base = 'RecurrentProcessor' if n.get('recurrent') else 'ProcessorBase'
     if n.get('base'):
         base = n['base']
     lines = [f'class {nid}({base}):']
     if n.get('doc'):
         lines.append(f'    """{n["doc"]}"""')
-    if n.get('name', True) is not None:
-        lines.append(f'    name = {n.get("name_value", nid)!r}')
+    nm = n.get('nm', 'id')
+    if nm == 'id':
+        lines.append(f'    name = {nid!r}')
+    elif nm != 'none':
+        lines.append(f'    name = {nm[1]!r}')
     if 'node_type' in n:
         lines.append(f'    node_type = {n["node_type"]!r}')
     if n.get('verbose_name'):
@@ -75,11 +82,14 @@ def node_src(n):
             lines.append('    use_default = True')
     if n.get('has_default', True):
         lines.append('    def get_default(self, **kwargs):')
-        lines.append(f'        return rt.default(self, {nid!r}, kwargs)')
+        lines.append('        return rt.default(self, self.name, kwargs)')
     params = []
     names = []
     for pname, mark in n.get('params', []):
-        params.append(f'{pname}: {mark_src(mark)} = _M')
+        if n.get('generic_base'):
+            params.append(f'{pname}: InputGeneric(t.Any) = _M')
+        else:
+            params.append(f'{pname}: {mark_src(mark)} = _M')
         names.append(pname)
     for pname in n.get('plain_params', []):      # e.g. the input node's caller-supplied kwargs
         params.append(f'{pname}: t.Any = _M')
@@ -88,22 +98,40 @@ def node_src(n):
         params.append(f'{pname}=_M')
         names.append(pname)
     if n.get('start_of'):
-        params.append('additional_data: t.Optional[t.Any] = _M')
-        names.append('additional_data')
+        if n.get('no_additional_data'):
+            pass
+        else:
+            params.append('additional_data: t.Optional[t.Any] = _M')
+            names.append('additional_data')
     sig = ', '.join(['self'] + params + ['**kwargs'])
     packed = ', '.join(f'{p}={p}' for p in names)
     call = f'rt.pack(kwargs{", " + packed if packed else ""})'
+    body_id = 'self.name' if nm != 'none' else repr(nid)
     if n.get('no_process'):
-        pass
+        lines.append('    process = None')
     elif mode == 'async':
         lines.append(f'    async def process({sig}):')
-        lines.append(f'        return await rt.abody(self, {nid!r}, {call})')
+        if n.get('method_doc'):
+            lines.append(f'        """{n["method_doc"]}"""')
+        lines.append(f'        return await rt.abody(self, {body_id}, {call})')
     else:
         lines.append(f'    def process({sig}):')
-        lines.append(f'        return rt.body(self, {nid!r}, {call})')
+        if n.get('method_doc'):
+            lines.append(f'        """{n["method_doc"]}"""')
+        lines.append(f'        return rt.body(self, {body_id}, {call})')
     if len(lines) == 1:
         lines.append('    pass')
     return '\n'.join(lines)
+
+
+def generic_src(n):
+    """A node derived with build_node from a generic base class (n['generic_of'] = base id)."""
+    nid = n['id']
+    deps = ', '.join(f'{p}={mark_src(m)}' for p, m in n.get('params', []))
+    args = [n['generic_of'], f'node_name={nid!r}', f'class_name={("Generic" + nid)!r}']
+    if deps:
+        args.append(deps)
+    return f'{nid} = build_node({", ".join(args)})'
 
 
 def render(prog):
